@@ -125,6 +125,11 @@ type stored struct {
 	damage  string
 	sigType int
 	cookie  []byte // the cookie the publisher encrypted with; the client uses the same
+	// the record as the floodfill hands it out: one long-lived EncryptedLeaseSet
+	// object per stored ciphertext state, fetched and opened again and again (by
+	// right and wrong keys) — not a fresh parse for every attempt
+	rec   *encrypted_leaseset.EncryptedLeaseSet
+	recOf []byte
 }
 
 // keyring holds the clients' key pairs for the length of one run: a client
@@ -407,6 +412,23 @@ func decrypt(o *engine.Outcome, ct []byte, priv any, cookie []byte) (got []byte,
 	if !ok {
 		return nil, nil, false, true, false
 	}
+	return open(o, e, priv, cookie)
+}
+
+// record returns the long-lived EncryptedLeaseSet object of a stored
+// ciphertext; it is parsed anew only when the stored bytes have changed.
+func (st *stored) record() (*encrypted_leaseset.EncryptedLeaseSet, bool) {
+	if st.rec == nil || !bytes.Equal(st.recOf, st.ct) {
+		e, ok := wrap(st.ct)
+		if !ok {
+			return nil, false
+		}
+		st.rec, st.recOf = e, append([]byte(nil), st.ct...)
+	}
+	return st.rec, true
+}
+
+func open(o *engine.Outcome, e *encrypted_leaseset.EncryptedLeaseSet, priv any, cookie []byte) (got []byte, derr error, gotVal bool, unparseable bool, panicked bool) {
 	var v *lease_set2.LeaseSet2
 	panicked = o.Guard("DecryptInnerData", func() { v, derr = e.DecryptInnerData(cookie, priv) })
 	if panicked {
@@ -421,7 +443,14 @@ func decrypt(o *engine.Outcome, ct []byte, priv any, cookie []byte) (got []byte,
 
 func fetch(o *engine.Outcome, idx int, st *stored, client int, form int) {
 	_, priv := clientKeys(client)
-	got, derr, gotVal, unparseable, panicked := decrypt(o, st.ct, privForm(priv, form), st.cookie)
+	var got []byte
+	var derr error
+	var gotVal, unparseable, panicked bool
+	if rec, ok := st.record(); ok {
+		got, derr, gotVal, unparseable, panicked = open(o, rec, privForm(priv, form), st.cookie)
+	} else {
+		unparseable = true
+	}
 	if panicked {
 		return
 	}
